@@ -54,8 +54,28 @@ def inject(p, cls, r):
                 i = j
                 break
         kind = r.choice(["transition", "infection_frequency", "absolute"])
-        a, b = ("Zz", comps[0]) if r.random() < 0.5 else (comps[0], "Zz")
+        c_ = r.random()
+        a, b = ("Zz", comps[0]) if c_ < 0.35 else ((comps[0], "Zz") if c_ < 0.7 else ("Zz", "Yy"))     # one end or both ends unknown
         ops.insert(i, {"op": "flow", "kind": kind, "name": "bad", "param": "1/2", "src": a, "dst": b})
+        return q, i + 1
+    if cls == "unknown_flow_compartments_both":
+        # neither end exists (both selections are empty), or an unknown end against a selection that a strata filter empties
+        i = len(ops)
+        for j, o in enumerate(ops):
+            if o["op"] in ("req", "rebalance", "whitelist", "cv"):
+                i = j
+                break
+        kind = r.choice(["transition", "infection_frequency", "infection_density", "absolute"])
+        prior = [ops[j] for j in sidx if j < i and ops[j]["kind"] == "plain" and set(ops[j]["comps"]) != set(comps)]
+        if prior and r.random() < 0.4:
+            # the valid end names a compartment the stratification does not cover, filtered by one of its strata: nothing matches
+            so = prior[-1]
+            outside = [c for c in comps if c not in so["comps"]]
+            o2 = {"op": "flow", "kind": kind, "name": "bad", "param": "1/2", "src": outside[0], "dst": "Zz",
+                  "sf": {so["name"]: so["strata"][0]}}
+        else:
+            o2 = {"op": "flow", "kind": kind, "name": "bad", "param": "1/2", "src": "Zz", "dst": "Yy"}
+        ops.insert(i, o2)
         return q, i + 1
     if cls == "output_for_unknown_compartment":
         ops.append({"op": "req", "name": "badreq", "save": True, "req": {"type": "comp", "names": ["Zz"], "filt": {}}})
@@ -252,7 +272,7 @@ CLASSES = ["end_before_start", "timestep_not_dividing", "timestep_not_dividing_l
            "second_birth_flow", "second_age", "second_strain", "duplicate_stratification", "duplicate_universal_death",
            "duplicate_output_name", "mixing_on_partial", "age_on_partial", "mixing_on_strain", "unequal_source_dest",
            "flow_count_expectation", "after_finalize", "rate_not_a_number", "output_for_unmatched_compartment",
-           "output_for_unmatched_flow"]
+           "output_for_unmatched_flow", "unknown_flow_compartments_both"]
 
 
 def run(tier, seed):
@@ -281,6 +301,7 @@ def run(tier, seed):
         classes = CLASSES if tier == "thorough" else g.rng.sample(CLASSES, 7)
         # classes that need a particular context (a partial stratification) are tried on every program
         classes = list(classes) + [c_ for c_ in ("output_for_unmatched_compartment", "output_for_unmatched_flow", "unequal_source_dest",
+                                                 "unknown_flow_compartments_both", "rate_not_a_number",
                                                  "age_on_partial", "second_age", "second_strain") if c_ not in classes]
         for cls in classes:
             res = inject(p, cls, g.rng)
